@@ -52,6 +52,23 @@ XYB_STUB = r'''
 '''
 
 
+def codes_replay(ctx, spec, f):
+    """a value v that breaks a quantiser kernel is driven through the public encode as blue/red/green/grey pixels"""
+    ins = f.get("inputs") or {}
+    if "in_v" not in ins:
+        return {"reproduced": None, "detail": "input not found"}
+    from vlib import native
+    v = "%x" % int(ins["in_v"]["bin"], 2)
+    T, bd, full = spec["qcfg"]
+    last = None
+    for px in ([0, 0, v], [v, 0, 0], [0, v, 0], [v, v, v]):
+        for mc in (1, 8):
+            last = native.replay_native(ctx, "conv", ["enc", T, bd, int(full), mc] + [str(c) for c in px], both_profiles=True)
+            if last.get("reproduced"):
+                return last
+    return last
+
+
 def plan(tier, seed):
     p = Plan()
     p.stubbing = True
@@ -104,7 +121,7 @@ def plan(tier, seed):
         n, code = quant(T, bd, full)
         q += code
         hs.append(dict(name=n, family="codes", timeout=600, mem_gb=8, obligation="from_f32_luma/chroma (%s, %d-bit, %s) return a code in [0,2^n-1] for every f32" % (T, bd, "full" if full else "limited"),
-                       sym="value: all 2^32 bit patterns", covers=["NaN explored", "huge value explored", "maximum code reachable"], replay=None))
+                       sym="value: all 2^32 bit patterns", covers=["NaN explored", "huge value explored", "maximum code reachable"], replay=codes_replay, qcfg=(T, bd, full)))
     p.modules.append(("src/yuv_rgb.rs", QUANT % q))
     p.harnesses = hs
     p.functions = ["every TryFrom/From conversion between Rgb, LinearRgb, Xyb, Hsl and Rgb->Yuv (public API, 1-pixel images)", "all scalar transfer curves, transform_primaries, linear_rgb_to_xyb / xyb_to_linear_rgb, lrgb_to_hsl / hsl_to_lrgb",
